@@ -1,4 +1,6 @@
 import KyupyVerif.Proofs.SubstSome4
+import KyupyVerif.Proofs.ResolveSome
+import KyupyVerif.Proofs.SubstKeys
 import KyupyVerif.Props.C10
 import KyupyVerif.Gen.TechImpl
 import KyupyVerif.Proofs.TechImplChk0
@@ -29,14 +31,40 @@ module proves the success itself.
   implementation satisfies `implSomeOKB` = `wf` ∧ `implGenOKB` ∧ `targetsOKB` ∧ gap-free forks ∧ "added nodes have different keys".
   `library_cell_resolves` — hence for EVERY built-in implementation and EVERY host / instance satisfying the host-side conditions
   (also instances with unconnected pins) `substitute` succeeds.
-* `resolve_step_isSome` — one iteration of `resolve_tlib_cells`.  `resolve_isSome_of_genOK` — `resolveGenOKB` (decidable, evaluated by
-  running the model) contains the success of every step, so `resolveCells … = some _` is no extra hypothesis of `resolve_sem_general`.
+* `resolve_step_isSome` — one iteration of `resolve_tlib_cells`.
+* `resolveGenOKB_unfold` (formerly `resolve_isSome_of_genOK`; the old name is kept as a deprecated alias) is NOT a success theorem:
+  `resolveGenOKB` is DEFINED by running `substitute` along the loop and answering `false` on `none`, so "`resolveGenOKB = true` →
+  `resolveCells … = some _`" only unfolds its hypothesis (audit 2, finding 6 / B-C10-1).  It is bookkeeping: `resolve_sem_general` need not
+  list the success separately.
+* **Theorem** `substitute_preserves_inv` (audit 2, finding 6: one-step preservation) — under `substSomeHypB` the call succeeds AND its
+  result satisfies the two circuit-wide clauses of `substSomeHypB` again: `wfNoTrail` and `forksDenseB` (gap-free forks: the copied
+  forks are made dense by the loop after the connecting loops, `Line.remove()` squeezes the fork it leaves, `remove_dangling_nodes`
+  keeps that: Proofs/SubstSome5.lean `removeDangling_fd`, `substitute_inv`).
+* **Theorem** `resolve_run_isSome` / `resolve_cells_isSome` — a WHOLE `resolve_tlib_cells` run returns a circuit (and the result is again
+  `wfNoTrail` with gap-free forks), for ANY number of library instances, by induction over the key list with the invariant
+  `wfNoTrail ∧ forksDenseB` carried by `substitute_preserves_inv`.  Hypotheses (all decidable, Model/ResolveHyp.lean): on the
+  ORIGINAL circuit `wfNoTrail`, `forksDenseB`; on the library `libOKB` (every implementation satisfies `implSomeOKB`; for the
+  built-in libraries `library_impls_ok`); per instance `resolveInstB` = the per-instance clauses `instHypB` (the cell is no port and no
+  fork, `noSelfIgnB`, `addFreshB`, `arityOKB`) ON THE CIRCUIT AS IT IS WHEN THE SUBSTITUTION OF THAT INSTANCE STARTS.  `resolveInstB`
+  does NOT contain the success of `substitute` (`none ⇒ true`), so the theorem is not an unfolding; but the per-instance clauses are
+  still evaluated along the model's run, not on the original circuit.  Evaluated per generated resolve case by harness/c10.py
+  (driver `resolveok`, fields 8-14; tags `runSome-hyp:*`; inside the hypotheses a raise of the real code is a broken tie).
+  `resolve_two_instances_isSome`: the theorem applied to a host with TWO instances of cells FROM THE GENERATED TABLE (NANGATE `TBUF_X1`,
+  which ignores its connected `EN` pin; `ANTENNA`, which has no output and no designated cell: the instance is removed, indices move).
 * **Correspondence**: that the generated dumps ARE the library objects (gen/dump_techlib.py: `render_nnet` = `circ.dump_net`), and the
-  hypotheses evaluated per case by harness/c10.py (driver command `substsome`; tags `isSome-hyp:*`): a real use inside the hypotheses
-  on which the real code raises is a broken tie.
-* **Not theorem**: success of a whole `resolve_tlib_cells` run from static hypotheses on the ORIGINAL circuit alone (freshness of the
-  names and gap-freeness of the forks would have to be carried through the loop; gap-freeness of the result of `substitute` is not
-  exported yet). -/
+  hypotheses evaluated per case by harness/c10.py (driver commands `substsome`, tags `isSome-hyp:*`; `resolveok`, tags `runSome-hyp:*`):
+  a real use inside the hypotheses on which the real code raises is a broken tie.
+* **Theorem** `substitute_kindNames_subset` / `substitute_keys_subset` (transport lemma (3) of the list below, Proofs/SubstKeys.lean): under
+  `substSomeHypB` every node of the result carries the (kind, name) of a host node, or (kind of the designated cell, name of the
+  instance), or of an added node: `h'.keys ⊆ h.keys ∪ {re-kinded instance} ∪ addedKeys`.  Not yet used by a whole-run theorem.
+* **Not theorem** (what is missing for a purely STATIC whole-run theorem): transport of the per-instance clauses from the ORIGINAL
+  circuit to the intermediate circuits.  Needed and not exported by `substitute_sem_general` (`SubstGenStmt`): for a host node `d ≠ c`
+  that survives a substitution (through the index map `R`) (1) `ins.length` and, for non-forks, `outs.length` are unchanged
+  (`arityOKB` speaks about list lengths; `SubstGenStmt` gives `inPin k` for every `k` only), (2) a host line that was driven by the
+  substituted cell is afterwards driven by an image of `node_map`, never by another host node (for `noSelfIgnB`), (3) [NOW PROVED, one step: `substitute_keys_subset`] the key set of
+  the result is contained in host keys ∪ `addedKeys` (for `addFreshB`; then a static condition "original keys ++ all added keys of all
+  instances are pairwise different" would do), (4) names of the copies (only kinds are exported).  Port / fork status and the kind of a
+  surviving host node (hence WHICH implementation is looked up) are already exported (`SubstGenStmt`: `io`, kind, name clauses). -/
 namespace KV.C10
 open KV KV.Transform
 
@@ -97,8 +125,9 @@ theorem resolve_step_isSome (lib : Lib) (cur : NNet) (key : String × Bool)
     · rfl
   · rfl
 
-/-- `resolveGenOKB` (hypothesis of `resolve_sem_general`) contains the success of every step -/
-theorem resolve_isSome_of_genOK (lib : Lib) : ∀ (keys : List (String × Bool)) (cur : NNet), resolveGenOKB lib keys cur = true →
+/-- UNFOLDING LEMMA, not a success theorem: `resolveGenOKB` (hypothesis of `resolve_sem_general`) is defined by running `substitute`
+    along the loop (`false` on `none`), so it contains the success of every step by definition -/
+theorem resolveGenOKB_unfold (lib : Lib) : ∀ (keys : List (String × Bool)) (cur : NNet), resolveGenOKB lib keys cur = true →
     (keys.foldlM (resolveStep lib) cur).isSome = true
   | [], _, _ => rfl
   | key :: rest, cur, hok => by
@@ -127,9 +156,110 @@ theorem resolve_isSome_of_genOK (lib : Lib) : ∀ (keys : List (String × Bool))
         exact ⟨cur, rfl, hok⟩
     obtain ⟨nxt, h1, h2⟩ := step
     simp only [List.foldlM_cons, Option.bind_eq_bind, h1, Option.bind_some]
-    exact resolve_isSome_of_genOK lib rest nxt h2
+    exact resolveGenOKB_unfold lib rest nxt h2
+
+/-- old name of `resolveGenOKB_unfold` (a tautology by the definition of `resolveGenOKB`; kept for references in older documents) -/
+@[deprecated resolveGenOKB_unfold (since := "2026-09-30")]
+abbrev resolve_isSome_of_genOK := @resolveGenOKB_unfold
+
+/-! ## whole run (audit 2, finding 6) -/
+/-- **one substitution preserves the circuit-wide hypotheses of the next one**: under `substSomeHypB` the call succeeds and the result
+    is again well-formed up to trailing `None`s with gap-free forks (the first two clauses of `substSomeHypB`) -/
+theorem substitute_preserves_inv (h m : NNet) (c : Nat) (hyp : substSomeHypB h c m = true) :
+    ∃ h', substitute h c m = some h' ∧ h'.wfNoTrail = true ∧ forksDenseB h'.net = true := substitute_some_inv h m c hyp
+
+/-- **a whole `resolve_tlib_cells` run returns a circuit**, for any number of library instances: the original circuit is well-formed up
+    to trailing `None`s with gap-free forks, every implementation of the library satisfies `implSomeOKB` (`libOKB`), and every library
+    instance satisfies the per-instance clauses `instHypB` (no port, no fork, `noSelfIgnB`, `addFreshB`, `arityOKB`) on the circuit as it
+    is when its substitution starts (`resolveInstB`, which does NOT contain the success of any `substitute`).  The result satisfies
+    the two invariants again. -/
+theorem resolve_run_isSome (lib : Lib) (keys : List (String × Bool)) (cur : NNet) (hl : libOKB lib = true)
+    (hw : cur.wfNoTrail = true) (hf : forksDenseB cur.net = true) (hi : resolveInstB lib keys cur = true) :
+    ∃ h', keys.foldlM (resolveStep lib) cur = some h' ∧ h'.wfNoTrail = true ∧ forksDenseB h'.net = true :=
+  resolve_run_some lib hl keys cur hw hf hi
+
+/-- … for `resolveCells` (the loop over the snapshot of all nodes) -/
+theorem resolve_cells_isSome (lib : Lib) (h : NNet) (hl : libOKB lib = true) (hw : h.wfNoTrail = true)
+    (hf : forksDenseB h.net = true) (hi : resolveInstB lib h.keys h = true) : (resolveCells lib h).isSome = true := by
+  obtain ⟨h', e, _⟩ := resolve_run_some lib hl h.keys h hw hf hi
+  unfold resolveCells
+  rw [e]; rfl
+
+/-- a library whose implementations all come from the generated table satisfies `libOKB` -/
+theorem libOKB_of_table (lib : Lib)
+    (hmem : ∀ e ∈ lib, ∃ ch ∈ Gen.techImplChunks, ∃ t ∈ ch, t.2.2 = e.2) : libOKB lib = true := by
+  simp only [libOKB, List.all_eq_true]
+  intro e he
+  obtain ⟨ch, hch, t, ht, heq⟩ := hmem e he
+  rw [← heq]
+  exact List.all_eq_true.mp (List.all_eq_true.mp library_impls_ok ch hch) t ht
+
+/-- two cells FROM THE GENERATED TABLE: NANGATE `TBUF_X1` (ignores its `EN` pin) and `ANTENNA` (no output, no designated cell) -/
+def exTabTbuf : Nat × String × NNet := Gen.techImplChunk1[30]'(by decide)
+def exTabAnt : Nat × String × NNet := Gen.techImplChunk6[9]'(by decide)
+def exLib2 : Lib := [("TBUF_X1", exTabTbuf.2.2), ("ANTENNA", exTabAnt.2.2)]
+/-- host with TWO library instances: `u = TBUF_X1(A = a, EN = en)`, `v = ANTENNA(A = a)` behind the fork of `a`; `z = u` -/
+def exHost2 : NNet :=
+  { net := { nodes := #[⟨"input", [], [some 0]⟩, ⟨"input", [], [some 1]⟩, ⟨"__fork__", [some 0], [some 2, some 3]⟩,
+                        ⟨"TBUF_X1", [some 2, some 1], [some 4]⟩, ⟨"ANTENNA", [some 3], []⟩, ⟨"output", [some 4], []⟩],
+             lines := #[⟨0, 0, 2, 0⟩, ⟨1, 0, 3, 1⟩, ⟨2, 0, 3, 0⟩, ⟨2, 1, 4, 0⟩, ⟨3, 0, 5, 0⟩], io := [0, 1, 5] },
+    names := #["a", "en", "a", "u", "v", "z"] }
+
+/-- **two library instances in one circuit**: `resolve_cells_isSome` applied to `exHost2` with the two table cells -/
+theorem resolve_two_instances_isSome : (resolveCells exLib2 exHost2).isSome = true :=
+  resolve_cells_isSome exLib2 exHost2
+    (libOKB_of_table exLib2 (by
+      intro e he
+      simp only [exLib2, List.mem_cons, List.not_mem_nil, or_false] at he
+      rcases he with rfl | rfl
+      · exact ⟨Gen.techImplChunk1, by simp [Gen.techImplChunks], exTabTbuf, List.getElem_mem _, rfl⟩
+      · exact ⟨Gen.techImplChunk6, by simp [Gen.techImplChunks], exTabAnt, List.getElem_mem _, rfl⟩))
+    (by decide +kernel) (by decide +kernel) (by decide +kernel)
+
+/-- **transport lemma (3), key freshness**: under `substSomeHypB` every node of the result of `substitute` carries the (kind, name) of
+    a node of the host, or (kind of the designated cell, name of the instance), or the (kind, name) of an added node (`addedKN`) -/
+theorem substitute_kindNames_subset (h m h' : NNet) (c : Nat) (hyp : substSomeHypB h c m = true) (he : substitute h c m = some h') :
+    ∃ sh, implShape m = some sh ∧ ∀ kn ∈ h'.kindNames, kn ∈ h.kindNames ∨
+      (∃ dn, sh.des = some dn ∧ kn = ((m.net.node dn).kind, h.names.getD c "")) ∨ kn ∈ addedKN m (h.names.getD c "") sh.des := by
+  simp only [substSomeHypB, Bool.and_eq_true, decide_eq_true_eq, Bool.not_eq_true'] at hyp
+  obtain ⟨⟨⟨⟨⟨⟨⟨⟨⟨⟨h1, h2⟩, h3⟩, h4⟩, h5⟩, h6⟩, h7⟩, h8⟩, h9⟩, h10⟩, h11⟩ := hyp
+  exact substitute_kindNames_mem h m h' c (WFm.of_wfNoTrail h1) (FD_of_forksDenseB h2) (WF.of_wf h3) h4 (by simpa using h5) h6 h7 h8 h9 h10
+    (fun sh hs => by
+      simp only [arityOKB, hs, Bool.and_eq_true, decide_eq_true_eq] at h11
+      exact h11) he
+
+/-- … hence the KEY set of the result is contained in host keys ∪ {key of the re-kinded instance} ∪ `addedKeys` -/
+theorem substitute_keys_subset (h m h' : NNet) (c : Nat) (hyp : substSomeHypB h c m = true) (he : substitute h c m = some h') :
+    ∃ sh, implShape m = some sh ∧ ∀ k ∈ h'.keys, k ∈ h.keys ∨
+      (∃ dn, sh.des = some dn ∧ k = keyOfKN ((m.net.node dn).kind, h.names.getD c "")) ∨ k ∈ addedKeys m (h.names.getD c "") sh.des := by
+  obtain ⟨sh, hs, hk⟩ := substitute_kindNames_subset h m h' c hyp he
+  refine ⟨sh, hs, ?_⟩
+  intro k hkm
+  rw [keys_eq_kindNames, List.mem_map] at hkm
+  obtain ⟨kn, hkn, rfl⟩ := hkm
+  rcases hk kn hkn with h1 | ⟨dn, hd, rfl⟩ | h1
+  · exact Or.inl (by rw [keys_eq_kindNames]; exact List.mem_map_of_mem h1)
+  · exact Or.inr (Or.inl ⟨dn, hd, rfl⟩)
+  · exact Or.inr (Or.inr (List.mem_map_of_mem h1))
+
+/-- hypotheses of `substitute_keys_subset` on the first substitution of `exHost2` (the table cell `TBUF_X1` at node 3) -/
+example : substSomeHypB exHost2 3 exTabTbuf.2.2 = true ∧ (substitute exHost2 3 exTabTbuf.2.2).isSome = true ∧
+    (implShape exTabTbuf.2.2).map (fun sh => addedKeys exTabTbuf.2.2 "u" sh.des) = some [] := by decide +kernel
 
 /-! ## non-vacuity -/
+/-- the objects of `resolve_two_instances_isSome`: the table entries are the named cells, the second substitution runs on a circuit
+    changed by the first (line 1 removed, fork `a` squeezed after the antenna is gone), both `resolveGenOKB`-style success and the
+    result: `u` became a `BUF1`, `v` is gone, 3 lines -/
+example : (exTabTbuf.2.1, exTabAnt.2.1) = ("TBUF_X1", "ANTENNA") ∧ libOKB exLib2 = true ∧ exHost2.wfNoTrail = true ∧
+    forksDenseB exHost2.net = true ∧ resolveInstB exLib2 exHost2.keys exHost2 = true ∧
+    (resolveCells exLib2 exHost2).map (fun r => (r.wfNoTrail, forksDenseB r.net, r.kindNames, r.net.lines.size)) =
+      some (true, true, [("input", "a"), ("input", "en"), ("__fork__", "a"), ("BUF1", "u"), ("output", "z")], 3) := by decide +kernel
+/-- `resolveInstB` fails where the real code raises in the SECOND substitution: the name `v~…` is not needed here, so take an arity
+    violation — `ANTENNA` instance with two input pins -/
+example : resolveInstB exLib2 exHost2.keys
+    { exHost2 with net := { exHost2.net with nodes := exHost2.net.nodes.modify 4 fun n => { n with ins := [some 3, none] } } } = false := by
+  decide +kernel
+
 /-- hypotheses of `substitute_isSome` on a use with an IGNORED connected pin (`TBUF`-style cell of Props/C10.lean), on a cell
     WITHOUT designated cell (antenna) and on a use with an UNCONNECTED output whose logic dangles -/
 example : substSomeHypB exTbufHost 2 exTbuf = true ∧ substSomeHypB exAntHost 2 exAnt = true ∧
